@@ -1,0 +1,29 @@
+//go:build verif
+// +build verif
+
+package os
+
+// NewFSForVerif returns an FS with the given root and volume name, bypassing Sub/SubVolume validation of the
+// host platform, so Windows conventions can be exercised on any host. Only built with the 'verif' tag.
+func NewFSForVerif(root, volumeName string) *FS {
+	return &FS{root: root, volumeName: volumeName}
+}
+
+// ToOSPathFor is toOSPath with an explicit GOOS and separator.
+func (fs *FS) ToOSPathFor(goos string, separator rune, op, fsPath string) (string, error) {
+	p, err := fs.toOSPath(goos, separator, op, fsPath)
+	if err != nil {
+		return "", err
+	}
+	return p, nil
+}
+
+// FromOSPathFor is fromOSPath with an explicit GOOS, separator and volume-name function.
+func (fs *FS) FromOSPathFor(goos string, separator rune, getVolumeName func(string) string, op, osPath string) (string, error) {
+	return fs.fromOSPath(goos, separator, getVolumeName, op, osPath)
+}
+
+// RootForVerif returns the FS's root and volume name.
+func (fs *FS) RootForVerif() (root, volumeName string) {
+	return fs.root, fs.volumeName
+}
